@@ -3,7 +3,8 @@
    What is transcribed, and from where:
    * store_norm        api/types.go  Pin.ProtoMarshal / ProtoUnmarshal  (the form in which dsstate stores a pin)
    * wire_ok           api/types.go  PinOptions.Origins []multiaddr.Multiaddr cannot be decoded from msgpack (S19)
-   * apply_entry       go-libp2p-raft fsm.go FSM.Apply (decode onto the REUSED op, rollback branch, flags)
+   * apply_entry       go-libp2p-raft fsm.go FSM.Apply (decode onto the REUSED op - an entry that decodes without setting a
+                       field leaves the previous entry's Type in place (optype) -, rollback branch, flags)
                        + consensus/raft/log_op.go LogOp.ApplyTo (Add/Rm on the state, one async tracker call)
    * snap request/persist   fsm.go FSM.Snapshot / fsmSnapshot.Persist (Persist encodes the state it finds when it RUNS)
    * restore           fsm.go FSM.Restore + state/dsstate/datastore.go State.Unmarshal (+ the consensus/raft wrapper that
@@ -62,7 +63,10 @@ Inductive logop :=
 | LUnpin (p : pin)    (* LogOp{Type: LogOpUnpin} *)
 | LOther (p : pin)    (* LogOp with an unknown Type: ignored by ApplyTo *)
 | LJunk               (* bytes that decode neither as a LogOp nor as a state dump *)
-| LMap.               (* a msgpack map that is not a LogOp: decodes as an (empty) state dump, i.e. a bogus rollback *)
+| LMap                (* a msgpack map with keys that are not LogOp fields: refused as a LogOp (ErrorIfNoField), decodes as an
+                         (empty) state dump, i.e. a bogus rollback *)
+| LMapEmpty.          (* the empty msgpack map {0x80}: decodes WITHOUT error as a LogOp and leaves every field of the reused
+                         LogOp as it was (no API call can submit such an entry; raw Raft.Apply only) *)
 
 (* what the tracker is told: Track/Untrack, cid, type, max depth, mode, allocations *)
 Inductive tcall := TCall (track : bool) (c t : N) (d : Z) (m : N) (a : list N).
@@ -88,27 +92,39 @@ Record node := mknode {
   crashed : bool;         (* the process panicked inside FSM.Apply *)
   pending : option nat;   (* FSM.Snapshot returned, Persist not yet run: the index hashicorp/raft will label it with *)
   snaps : list (nat * pinset);  (* snapshots persisted by this node, oldest first: (label, content) *)
-  calls : list tcall      (* tracker calls issued so far, newest first *)
+  calls : list tcall;     (* tracker calls issued so far, newest first *)
+  optype : N              (* LogOp.Type left in the reused LogOp by the last entry that decoded: 1 pin, 2 unpin, 0 none / unknown *)
 }.
-Definition node0 : node := mknode [] 0 false false false false None [] [].
+Definition node0 : node := mknode [] 0 false false false false None [] [] 0.
+(* the cid of a pin whose Cid field was never decoded (cid.Undef; the harness prints it as 998) *)
+Definition undef_cid : N := 998.
 
 Definition apply_entry (op : logop) (nd : node) : node :=
   if crashed nd then nd else
   let nxt := S (applied nd) in
   match op with
-  | LJunk => mknode (st nd) nxt (inited nd) true (dirty nd) false (pending nd) (snaps nd) (calls nd)
-  | LMap => mknode (st nd) nxt true false (dirty nd) false (pending nd) (snaps nd) (calls nd)
+  | LJunk => mknode (st nd) nxt (inited nd) true (dirty nd) false (pending nd) (snaps nd) (calls nd) (optype nd)
+  | LMap => mknode (st nd) nxt true false (dirty nd) false (pending nd) (snaps nd) (calls nd) (optype nd)
+  | LMapEmpty =>
+      (* decodeOp succeeds and changes nothing; ApplyTo runs on the stale Type and on whatever pin the reused op holds:
+         nil after any ApplyTo (-> nil dereference in state.Add / pin.Cid), or the half-decoded pin of a failed decode *)
+      if optype nd =? 1 then mknode (st nd) (applied nd) (inited nd) (incons nd) (dirty nd) true (pending nd) (snaps nd) (calls nd) (optype nd)
+      else if optype nd =? 2 then
+        if dirty nd   (* state.Rm of the undefined cid of the half-decoded pin: no effect; Untrack is issued; op.Cid = nil *)
+        then mknode (st nd) nxt true (incons nd) false false (pending nd) (snaps nd) (TCall false undef_cid 0 0%Z 0 [] :: calls nd) (optype nd)
+        else mknode (st nd) (applied nd) (inited nd) (incons nd) (dirty nd) true (pending nd) (snaps nd) (calls nd) (optype nd)
+      else mknode (st nd) nxt true (incons nd) false false (pending nd) (snaps nd) (calls nd) (optype nd)   (* "unknown LogOp type. Ignoring" *)
   | LPin p =>
-      if negb (wire_ok p) then mknode (st nd) nxt true false true false (pending nd) (snaps nd) (calls nd)
-      else if dirty nd then mknode (st nd) (applied nd) (inited nd) (incons nd) true true (pending nd) (snaps nd) (calls nd)
-      else if pin_badutf p then mknode (st nd) nxt (inited nd) true false false (pending nd) (snaps nd) (calls nd)
-      else mknode (sput (p_cid p) (store_norm p) (st nd)) nxt true (incons nd) false false (pending nd) (snaps nd) (track_of p :: calls nd)
+      if negb (wire_ok p) then mknode (st nd) nxt true false true false (pending nd) (snaps nd) (calls nd) (optype nd)
+      else if dirty nd then mknode (st nd) (applied nd) (inited nd) (incons nd) true true (pending nd) (snaps nd) (calls nd) 1
+      else if pin_badutf p then mknode (st nd) nxt (inited nd) true false false (pending nd) (snaps nd) (calls nd) 1
+      else mknode (sput (p_cid p) (store_norm p) (st nd)) nxt true (incons nd) false false (pending nd) (snaps nd) (track_of p :: calls nd) 1
   | LUnpin p =>
-      if negb (wire_ok p) then mknode (st nd) nxt true false true false (pending nd) (snaps nd) (calls nd)
-      else mknode (sdel (p_cid p) (st nd)) nxt true (incons nd) false false (pending nd) (snaps nd) (untrack_of p :: calls nd)
+      if negb (wire_ok p) then mknode (st nd) nxt true false true false (pending nd) (snaps nd) (calls nd) (optype nd)
+      else mknode (sdel (p_cid p) (st nd)) nxt true (incons nd) false false (pending nd) (snaps nd) (untrack_of p :: calls nd) 2
   | LOther p =>
-      if negb (wire_ok p) then mknode (st nd) nxt true false true false (pending nd) (snaps nd) (calls nd)
-      else mknode (st nd) nxt true (incons nd) false false (pending nd) (snaps nd) (calls nd)
+      if negb (wire_ok p) then mknode (st nd) nxt true false true false (pending nd) (snaps nd) (calls nd) (optype nd)
+      else mknode (st nd) nxt true (incons nd) false false (pending nd) (snaps nd) (calls nd) 0
   end.
 
 (* FSM.Restore as consensus/raft hands it to hashicorp/raft (restoreFSM, fix of S1): the state is emptied, then the
@@ -120,17 +136,17 @@ Definition restore_onto (cur snap : pinset) : pinset := restore_merge [] snap.
 Definition snap_req (nd : node) : node :=
   if crashed nd then nd else
   mknode (st nd) (applied nd) (inited nd) (incons nd) (dirty nd) false
-         (if inited nd && negb (incons nd) then Some (applied nd) else None) (snaps nd) (calls nd).
+         (if inited nd && negb (incons nd) then Some (applied nd) else None) (snaps nd) (calls nd) (optype nd).
 Definition snap_persist (nd : node) : node :=
   match pending nd with
-  | Some l => mknode (st nd) (applied nd) (inited nd) (incons nd) (dirty nd) (crashed nd) None (snaps nd ++ [(l, st nd)]) (calls nd)
+  | Some l => mknode (st nd) (applied nd) (inited nd) (incons nd) (dirty nd) (crashed nd) None (snaps nd ++ [(l, st nd)]) (calls nd) (optype nd)
   | None => nd
   end.
 Definition restore (s : nat * pinset) (nd : node) : node :=
   if crashed nd then nd else
-  mknode (restore_onto (st nd) (snd s)) (fst s) true false (dirty nd) false (pending nd) (snaps nd) (calls nd).
+  mknode (restore_onto (st nd) (snd s)) (fst s) true false (dirty nd) false (pending nd) (snaps nd) (calls nd) (optype nd).
 (* a new process on the same stores: empty datastore, fresh FSM and LogOp; snapshots and the tracker's record survive *)
-Definition restart (nd : node) : node := mknode [] 0 false false false false None (snaps nd) (calls nd).
+Definition restart (nd : node) : node := mknode [] 0 false false false false None (snaps nd) (calls nd) 0.
 
 (* ---- the cluster ---- *)
 Record cluster := mkcluster { log : list logop; nodes : list node }.
@@ -198,6 +214,7 @@ Definition clean_op (op : logop) : bool :=
   | LOther p => wire_ok p
   | LJunk => false
   | LMap => false
+  | LMapEmpty => false
   end.
 Definition clean_ev (e : mevent) : bool := match e with MCommit op => clean_op op | _ => true end.
 
